@@ -114,7 +114,7 @@ func genC16(seed int64, tier string) *Scenario {
 	}
 	probe := func(tag string) {
 		for _, h := range []string{"h1.test", "h1.test:8443", "h2.test", "x.w.test", "auto.test", "other.test"} {
-			for _, p := range []string{"/", "/sub/x?a=1&b=%20c", "/only", "/q?x=http://e/;y", "/files/a%2Fb%3Bc/%41?x=1", "/sub/d%2Fe//f?y=%2F"} {
+			for _, p := range []string{"/", "/up", "/sub/x?a=1&b=%20c", "/only", "/q?x=http://e/;y", "/files/a%2Fb%3Bc/%41?x=1", "/sub/d%2Fe//f?y=%2F"} {
 				for _, t := range []bool{false, true} {
 					op.Ops = append(op.Ops, Op{Kind: "request", Router: router, Host: h, Path: p, TLS: t, Tag: tag})
 				}
@@ -129,7 +129,11 @@ func genC16(seed int64, tier string) *Scenario {
 		if rng.Intn(2) == 0 { // root and sub-path service of the same host
 			s = c16Svcs[rng.Intn(2)]
 		}
-		switch rng.Intn(8) {
+		switch rng.Intn(10) {
+		case 8: // stopped services still apply their TLS policy first, also to the health-check path
+			op.Ops = append(op.Ops, Op{Kind: "stop", Router: router, Service: s.name, DrainTimeout: 200 * time.Millisecond, Message: "closed"})
+		case 9:
+			op.Ops = append(op.Ops, Op{Kind: "resume", Router: router, Service: s.name})
 		case 0:
 			op.Ops = append(op.Ops, Op{Kind: "remove", Router: router, Service: s.name})
 		case 1:
@@ -154,6 +158,7 @@ type tlsModel struct {
 	tls, redirect bool
 	static, acme  bool
 	target        string
+	stopped       bool
 }
 
 func checkC16(r *RunResult) []Violation {
@@ -249,6 +254,9 @@ func checkC16(r *RunResult) []Violation {
 					continue
 				}
 				m := &tlsModel{target: c.Op.Targets[0]}
+				if old := model[c.Op.Service]; old != nil {
+					m.stopped = old.stopped // a redeploy keeps the running / stopped state
+				}
 				if len(c.Op.Hosts) > 0 {
 					m.host = c.Op.Hosts[0]
 				}
@@ -262,6 +270,10 @@ func checkC16(r *RunResult) []Violation {
 			case "remove":
 				if c.Err == nil {
 					delete(model, c.Op.Service)
+				}
+			case "stop", "resume":
+				if m := model[c.Op.Service]; m != nil && c.Err == nil {
+					m.stopped = c.Op.Kind == "stop"
 				}
 			}
 			// does a sub-path service exist whose root changed?
@@ -304,6 +316,17 @@ func checkC16(r *RunResult) []Violation {
 			case !tlsOn && q.Op.TLS:
 				if q.Status != 503 || forwarded {
 					add("tls-request-to-non-tls-service", fmt.Sprint(m.path != ""), fmt.Sprintf("%s: got status %d, forwarded=%v; expected 503", what, q.Status, forwarded))
+				}
+			case m.stopped:
+				// the TLS policy has been applied (above); then: 200 from the proxy
+				// itself for the health-check path, 503 for everything else
+				r.Probes["requests_to_stopped_service"]++
+				want := 503
+				if path == "/up" {
+					want = 200
+				}
+				if q.Status != want || forwarded {
+					add("stopped-service", fmt.Sprint(path == "/up"), fmt.Sprintf("%s, stopped: got status %d, forwarded=%v; expected %d from the proxy itself", what, q.Status, forwarded, want))
 				}
 			default:
 				if q.Status != 200 || q.ServedBy != m.target {
